@@ -68,6 +68,18 @@ var failClasses = []failClass{
 	{"operand-kind:mul:right", `{{ n * "x" }}`, true, true},
 	{"call-target-kind", `{{ s(1) }}`, true, true},
 	{"pipe-target-kind", `{{ s | n }}`, true, true},
+	// a call with empty parentheses of something that is no function; of a function value that is nil
+	{"call-target-kind:no-arguments", `{{ s() }}`, true, true},
+	{"call-target-kind:field:no-arguments", `{{ item.Name() }}`, true, true},
+	{"call-target-kind:nil-func", `{{ nilfn() }}`, true, true},
+	// an operand outside the operator's range: integer division and remainder by zero
+	{"operand-range:mod-by-zero:literal", `{{ 7 % 0 }}`, true, true},
+	{"operand-range:div-by-zero:int", `{{ n / zint }}`, true, true},
+	{"operand-range:mod-by-zero:int", `{{ n % zint }}`, true, true},
+	// the failing action spans several lines: its line is where it begins
+	{"unknown-block:yield-with-content", "{{ yield zzNope() content }}\nyc\n{{ end }}", true, true},
+	{"yield-argument-without-value:with-content", "{{ yield zb(q) content }}\nyc\n{{ end }}", true, true},
+	{"index-map-key-nil", `{{ root.One[nil] }}`, true, true},
 	{"command-args-on-non-function", `{{ s: 1 }}`, true, true},
 	{"arg-count:few", `{{ upper() }}`, true, true},
 	{"arg-count:many", `{{ upper(s, s) }}`, true, true},
@@ -491,6 +503,11 @@ func RunC12(env *sim.Env) {
 			}
 			nUnreached++
 			fc := failClasses[t.Choose(len(failClasses))]
+			if strings.Contains(fc.Text, "\n") {
+				// an action of several lines moves everything below it: line numbers in texts that are
+				// rendered further down (caught error messages) change legitimately
+				fc = failClasses[0]
+			}
 			variant := map[string]string{}
 			for p, src := range world.Files {
 				variant[p] = src
